@@ -1039,6 +1039,15 @@ func (f *Frame) appendOp(st *State, x *ssa.Call, s, t Val) Val {
 			vc.fact(Forall([]Term{j}, body, []Term{Select(content, j)}))
 		}
 		vc.set(st, name, Store(c, resArr, content))
+		if len(comps) == 1 {
+			if single {
+				x0 := Select(Select(c, t.arr()), Zero)
+				f.appendSetFacts(st, el, src, s.len(), content, newLen, true, x0, Term{}, Term{})
+				f.appendFieldSetFacts(st, el, src, s.len(), content, newLen, x0)
+			} else {
+				f.appendSetFacts(st, el, src, s.len(), content, newLen, false, Term{}, Select(c, t.arr()), n)
+			}
+		}
 	}
 	out := sliceVal(s.T, resArr, newLen, resCap)
 	vc.fact(Imp(st.reach, And(Le(Zero, newLen), Le(newLen, resCap))))
